@@ -31,4 +31,4 @@ def run_case(spec, rec):
 
 
 def subchecks(tier):
-    return [Sub("call", ag.call_spec(), run_case, quick=6000, thorough=200000)]
+    return [Sub("call", ag.call_spec(), run_case, quick=24000, thorough=400000)]
